@@ -64,3 +64,37 @@ META["C13"] = {
     "text": "Block slicing at the snapshot clock is what the unit model abstracts away, so its defects surface in the correspondence: three were found and repaired on the pinned tree (8d6075d, 9152c72).",
     "note": "Known finding: a snapshot taken while the store has gaps (operations integrated behind a missing block) cannot be restored exactly, because a state-vector shaped snapshot cannot describe them.",
 }
+
+def _m(cat, ref, tech, text, note): return {"category": cat, "design_ref": ref, "technique": tech, "text": text, "note": note}
+META["C09"] = _m("proof", "DESIGN.md section 6, C09",
+    "Coq round-trip theorems for the whole lib0 v1 layer (unbounded: every value satisfying an explicit boolean well-formedness predicate) + byte-level correspondence of the Rust codecs with the Coq codecs on generated and hand-made payloads + implementation round trips in v1 and v2 and Yjs fixtures",
+    "Round trips are universally quantified statements: proved for every varint width, strings, nested Any, id sets, state vectors, snapshots, sticky indexes, awareness updates, every sync message and every block / content kind of updates. The Rust code is tied to the model by decoding the same bytes on both sides and by re-encoding.",
+    "Partial: the v2 column codecs are not modelled (implementation round trips and v1<->v2 cross checks only). Repaired on the pinned tree: JSON content (9a4936a), v2 write_buf (976c4ca), Custom message tag (0a868d8), Skip length (e7abf27).")
+META["C10"] = _m("proof", "DESIGN.md section 6, C10",
+    "Coq totality theorems for every v1 decoder (for ALL byte strings: no modelled panic, no exhaustion of fuel = input length + 1, bounded nesting, decoded values satisfy the encoder's precondition) + outcome-class correspondence with the Rust decoders + isolated worker subprocesses with a counting allocator, small stack and time limit for all 22 entry points incl. v2",
+    "Totality is a claim about all 256^n inputs; the theorems settle it for the modelled decoders, the correspondence shows the Rust decoders fall into the same outcome class on hundreds of thousands of mutated inputs, and the worker runs observe what no model can (aborts, stack, allocation, time).",
+    "Partial by nature: runtime resources and the v2 decoders are observed, not proved. The pinned tree violated this property at about twenty sites (panics, aborts, multi-GB reservations, stack overflow, UB): repaired in df1cd64, cad7369, 0371611, d350b15.")
+META["C15"] = _m("proof", "DESIGN.md section 6, C15",
+    "Coq: gc as a function on the unit-level document; visible content, lengths, map values and the integrated id set are invariant under gc in every reachable state; the YATA position of later items does not depend on collected contents; gc commutes with integration and delete sets + gc / no-gc twin replicas compared after every delivery, forced gc, rebuild from gc'ed state, mixed-setting exchanges",
+    "GC may rewrite only what nobody can read: the theorems show that for the model in every reachable state; the twins check the real collector.",
+    "The general 'gc replica = no-gc replica' theorem carries a side condition (ops not below a collected parent) that is discharged unconditionally only for documents without nested types; nested cases are covered by the twins.")
+META["C03"] = _m("proof", "DESIGN.md section 6, C03",
+    "Coq refinement theorems (local insert / remove / map write on the unit-level item list = the operation on the plain sequence / dictionary, whatever tombstones and marks surround it) + generated programs against plain reference structures in both offset kinds, gc on/off",
+    "The implementation's behaviour depends on the block layout left by earlier calls; the theorems quantify over every list (every layout at unit level), the programs reach real layouts (splits, squashes, tombstones, format marks).",
+    "Partial: rich-text attribute semantics is decided by the reference comparison only.")
+META["C17"] = _m("proof", "DESIGN.md section 6, C17",
+    "pairwise comparison of every public read accessor on every state reached by the C03 programs (the deciding part) + Coq statements that all counts and the map entry derive from the same live units",
+    "This property is about redundant implementation paths (cached counters, cursor vs linked-list walk); a model with a single representation cannot contain the bug class, so the weight is on the exhaustive pairwise comparison after every transaction.",
+    "The theorems are thin by nature; the check is essentially differential.")
+META["C14"] = _m("proof", "DESIGN.md section 6, C14",
+    "Coq theorems over the unit-level list (resolves to the creation index; offset = live units left of the anchor (+1); moves under any insertion / deletion exactly by what happens left of the anchor; deleted anchor marks its gap; codec round trip) + resolution on every replica after every step against the hook dump",
+    "The theorems quantify over all lists and all later insertions / deletions; the harness knows from the hook dump where a deleted anchor used to be.",
+    "Anchors re-created by redo (follow_redone) are not modelled.")
+META["C20"] = _m("proof", "DESIGN.md section 6, C20",
+    "Coq theorems: a quotation is the live part of the segment between its anchors, sees later insertions in order, hides deletions + dereference on every replica after every step against the hook dump",
+    "Found and repaired on the pinned tree: start anchor at a tombstone (fb007d9), quotation not materialized when it starts at the end of a block (71ba737), text quotations not sliced at their boundaries (b77dca2).",
+    "Partial: observer notification is only counted, link bookkeeping is not modelled.")
+META["C18"] = _m("proof", "DESIGN.md section 6, C18",
+    "Coq: awareness as a per-client register (idempotent, order-insensitive on well-formed update sets for remote clients, clock monotone, lower clock never replaces, local state protected); handshake convergence at operation-set level (diff against any stale vector is complete; only the delivered set matters) + real Awareness/Protocol peers under seeded interleavings with concurrent edits and all permutations of awareness updates, model compared after every apply",
+    "Order-insensitivity is a statement over all permutations and the handshake over all interleavings; both are proved for the model and exercised on the real peers.",
+    "Model observation (documented, outside the property's quantifier): entries for the LOCAL client written by others with higher clocks are order-sensitive.")
